@@ -198,14 +198,17 @@ def model_case(cid: str, seed: int, k: int, tier: str) -> dict[str, Any]:
 def validate(traces: list[dict[str, Any]]) -> tuple[dict[str, list[Any]], list[Any]]:
     """Trace_DbReplay over the batch: id -> [label, class, index, explained_by, drift]."""
     verdicts: dict[str, list[Any]] = {}
-    results = []
     CH = 1200
-    for off in range(0, len(traces), CH):
-        sub = {"traces": [{k: t[k] for k in ("id", "oob", "sel", "rows", "tgt", "obs", "obs2", "base")}
-                          for t in traces[off:off + CH]]}
-        res = tlc.validate_batch("Trace_DbReplay", "Trace_DbReplay.cfg", sub, timeout=1800,
-                                 env={"JAVA_TOOL_OPTIONS": "-Xss256m"})
-        results.append(res)
+    keys = ("id", "oob", "sel", "rows", "tgt", "obs", "obs2", "base")
+
+    def go(off: int) -> Any:
+        sub = {"traces": [{k: t[k] for k in keys} for t in traces[off:off + CH]]}
+        return tlc.validate_batch("Trace_DbReplay", "Trace_DbReplay.cfg", sub, timeout=1800,
+                                  env={"JAVA_TOOL_OPTIONS": "-Xss256m"})
+
+    with ThreadPoolExecutor(max_workers=3) as ex:
+        results = list(ex.map(go, range(0, len(traces), CH)))
+    for res in results:
         for p in res.prints:
             if isinstance(p, list) and len(p) == 7 and p[0] == "V":
                 verdicts[str(p[1])] = p[2:]
@@ -234,31 +237,39 @@ def replay_summary(t: dict[str, Any]) -> dict[str, Any]:
 
 
 # --------------------------------------------------------------------------- the check
-def model_check(rep: Report, tier: str) -> None:
+MC_NEG = {"devS18": ("Y0_TrackersAgree",), "devS19": ("Y0_TrackersAgree",),
+          "devS31": ("Y1_RepliesAsRecorded", "Y2_IndependentOfOthers")}
+
+
+def model_check_start(tier: str) -> tuple[Any, dict[str, Any], list[str]]:
+    """Model checking runs concurrently with the executions of the real code (independent work)."""
     cfgs = ["len3", "sel1"] + (["len4", "sel2"] if tier == "thorough" else [])
-    negs = {"devS18": ("Y0_TrackersAgree",), "devS19": ("Y0_TrackersAgree",),
-            "devS31": ("Y1_RepliesAsRecorded", "Y2_IndependentOfOthers")}
 
     def go(c: str) -> Any:
-        return tlc.run_tlc("MC_DbReplay", f"MC_DbReplay_{c}.cfg", timeout=3000, workers=4,
+        return tlc.run_tlc("MC_DbReplay", f"MC_DbReplay_{c}.cfg", timeout=3000, workers=8 if c == "len4" else 3,
                            coverage=(c == "sel1"), parse_prints=False)
 
-    with ThreadPoolExecutor(max_workers=5) as ex:
-        futs = {c: ex.submit(go, c) for c in cfgs + list(negs)}
-        res = {c: f.result() for c, f in futs.items()}
+    ex = ThreadPoolExecutor(max_workers=7)
+    return ex, {c: ex.submit(go, c) for c in cfgs + list(MC_NEG)}, cfgs
+
+
+def model_check_finish(rep: Report, ex: Any, futs: dict[str, Any], cfgs: list[str]) -> None:
+    res = {c: f.result() for c, f in futs.items()}
+    ex.shutdown()
     for c in cfgs:
         rep.add_tlc(res[c], f"MC_DbReplay_{c}")
         if not res[c].ok:
             rep.violate(f"design/{res[c].violated}", {"where": "DbReplay design layer", "cfg": c},
                         {"cex": res[c].cex[-6:], "out": res[c].out[-1500:]})
-    for c, want in negs.items():
+    for c, want in MC_NEG.items():
         rep.add_tlc(res[c], f"MC_DbReplay_{c} (negative control)")
         if res[c].violated not in want:
             raise Machinery(f"negative control {c} violated {res[c].violated!r}, expected one of {want}: "
                             "the contract / design layer is vacuous")
     cov = res["sel1"].coverage
-    never = [a for a in ("AddForeign", "Record", "Begin", "Step") if cov.get(a, (0, 0))[0] == 0]
-    rep.extra["design_action_coverage"] = {a: cov.get(a, (0, 0))[0] for a in ("AddForeign", "Record", "Begin", "Step")}
+    acts = ("AddForeign", "Record", "Begin", "Step")
+    rep.extra["design_action_coverage"] = {a: cov.get(a, (0, 0))[0] for a in acts}
+    never = [a for a in acts if cov.get(a, (0, 0))[0] == 0]
     if never:
         raise Machinery(f"design-layer actions never taken in MC_DbReplay_sel1: {never}")
 
@@ -295,8 +306,16 @@ def run(tier: str, seed: int) -> Report:
         "another run with the SAME ECU name and properties cannot be separated by the selection: unspecified",
         "a second pass over the sequence on the same server instance is unspecified (design-layer comparison only)",
     ]
-    # ---- 1. model checking + negative controls
-    model_check(rep, tier)
+    pool = L.make_pool()  # fork the workers before any thread exists
+    try:
+        return _run(rep, tier, seed, pool)
+    finally:
+        pool.terminate()
+
+
+def _run(rep: Report, tier: str, seed: int, pool: Any) -> Report:
+    # ---- 1. model checking + negative controls (joined in step 7)
+    mc = model_check_start(tier)
     # ---- 2. spec -> code: every TLC behaviour up to length 2 (quick) / 3 (thorough) ...
     cases: list[dict[str, Any]] = []
     expect: dict[str, dict[str, Any]] = {}
@@ -348,7 +367,7 @@ def run(tier: str, seed: int) -> Report:
         "steps": [{"pdu": "1003"}, {"pdu": "221234"}, {"pdu": "22f190"}], "oob": [1],
         "peer": {"kind": "model", "seed": 1, "params": 0}}})
     # ---- 4. execute on the real objects
-    traces = L.run_cases(cases)
+    traces = L.run_cases(cases, pool)
     skipped = [t for t in traces if "skip" in t]
     traces = [t for t in traces if "skip" not in t]
     rep.extra["skipped_rows_lost"] = len(skipped)
@@ -376,6 +395,9 @@ def run(tier: str, seed: int) -> Report:
             rep.nontrivial.add(json.dumps([t["rows"], t["sel"]], sort_keys=True))
         if label != "ok":
             sig = {"explained_by": expl}
+            if expl == "unexplained":  # not one of the modelled deviations: say where it shows
+                sig["selector"] = sel_kind(t["sel"])
+                sig["raised"] = any(o["rep"] == L.RAISED for o in t["obs"])
             key = json.dumps([label, sig], sort_keys=True)
             seen_sig[key] = seen_sig.get(key, 0) + 1
             if seen_sig[key] <= 3:
@@ -416,6 +438,8 @@ def run(tier: str, seed: int) -> Report:
                                      f"exhaustive up to length {3 if tier == 'quick' else 4}")
     # ---- 6. binding self-tests
     selftest(rep, traces, verdicts)
+    # ---- 7. join the model checking
+    model_check_finish(rep, *mc)
     return rep
 
 
